@@ -33,7 +33,7 @@ func runC18(c *Ctx) {
 	c.Expect("C18-R1", "functions below Sampler.Sample", len(below), 8)
 
 	// ------------------------------------------------------------------ R1
-	c.Rule("C18-R1", "seeded randomness only: below Sampler.Sample package-level math/rand functions are called only on the `s.rng == nil` edge; there is no use of time, crypto/rand, map iteration or goroutines; NewSampler builds the generator from the seed (PCG of the seed and a constant-derived stream) exactly on the `seed != -1` edge of the unconverted parameter and stores it in the sampler")
+	c.Rule("C18-R1", "seeded randomness only: below Sampler.Sample package-level math/rand functions are called only on the `s.rng == nil` edge; there is no use of time, crypto/rand, map iteration or goroutines; NewSampler (or a helper it hands the bare seed parameter to and whose result it stores) builds the generator from the seed (PCG of the seed and a constant-derived stream) exactly on the `seed != -1` edge of the unconverted parameter and stores it in the sampler")
 	for _, f := range below {
 		g := c.G(f)
 		for _, ff := range withLits(f) {
@@ -95,49 +95,159 @@ func runC18(c *Ctx) {
 		}
 		c.Expect("C18-R1", "draws from the seeded generator", n, 1)
 	}
-	if f := c.Fn("C18-R1", "sample", "NewSampler"); f != nil {
-		g := c.G(f)
-		seed := paramAt(f, 4) // (temperature, topK, topP, minP, seed, grammar)
-		news := g.FindCalls("math/rand/v2.New", "math/rand.New")
-		c.Expect("C18-R1", "generator constructions in NewSampler", len(news), 1)
-		for _, h := range news {
-			okEdge := false
-			for _, a := range g.AtomsAt(h.Loc) {
-				be, ok := ast.Unparen(a.Expr).(*ast.BinaryExpr)
-				if !ok {
+	if f0 := c.Fn("C18-R1", "sample", "NewSampler"); f0 != nil {
+		// the generator is built in NewSampler itself or in a helper that NewSampler hands the bare seed
+		// parameter to and whose result it stores in the rng field
+		type site struct {
+			f      *core.Func
+			seed   types.Object
+			viaKey bool // the helper's call is the value of the rng key (or of a local stored there)
+		}
+		seed0 := paramAt(f0, 4) // (temperature, topK, topP, minP, seed, grammar)
+		sites := []site{{f0, seed0, false}}
+		for _, call := range core.Calls(f0.Body, false) {
+			fo, _ := core.Callee(info, call).(*types.Func)
+			if fo == nil || fo.Pkg() == nil || fo.Pkg() != c.P.Pkgs["sample"].Types {
+				continue
+			}
+			for _, hf := range c.P.FuncsOf("sample") {
+				if hf.Obj == nil || hf.Obj != fo {
 					continue
 				}
-				id, isID := ast.Unparen(be.X).(*ast.Ident) // the bare parameter: no conversion
-				v, isC := core.ConstInt(info, be.Y)
-				if isID && info.Uses[id] == seed && isC && v == -1 && ((be.Op == token.NEQ && a.Val) || (be.Op == token.EQL && !a.Val)) {
-					okEdge = true
-				}
-			}
-			// all facts at this point are about the seed sentinel only
-			nFacts := len(g.Facts(h.Loc))
-			c.Check("C18-R1", f.Key()+" generator built exactly when seed != -1", c.Pos(h.Node), okEdge && nFacts == 1, "the sentinel test must compare the unconverted seed parameter with -1 (a truncating conversion makes other seeds look like 'no seed')")
-			// derived from the seed
-			call := h.Node.(*ast.CallExpr)
-			fromSeed := closureMentions(g, call, func(n ast.Node) bool { id, ok := n.(*ast.Ident); return ok && info.Uses[id] == seed })
-			pcg := len(core.CallsTo(info, call, false, "math/rand/v2.NewPCG")) == 1
-			c.Check("C18-R1", f.Key()+" generator is a PCG of the seed", c.Pos(call), fromSeed && pcg, "rng must be rand.New(rand.NewPCG(f(seed), g(seed)))")
-			// stored in the returned sampler
-			rv := core.ResultVar(info, h.Top, call, 0)
-			stored := false
-			ast.Inspect(f.Body, func(n ast.Node) bool {
-				if kv, ok := n.(*ast.KeyValueExpr); ok {
-					if id, isID := kv.Key.(*ast.Ident); isID && info.Uses[id] == fRng && rv != nil && core.UsesObj(info, kv.Value, rv) {
-						stored = true
+				for i, a := range call.Args {
+					if isIdentOf(info, a, seed0) {
+						stored := false
+						var rv types.Object
+						if top := stmtOf(f0, call); top != nil {
+							if v := core.ResultVar(info, top, call, 0); v != nil {
+								rv = v
+							}
+						}
+						ast.Inspect(f0.Body, func(n ast.Node) bool {
+							if kv, ok := n.(*ast.KeyValueExpr); ok {
+								if id, isID := kv.Key.(*ast.Ident); isID && info.Uses[id] == fRng {
+									if ast.Unparen(kv.Value) == ast.Expr(call) || (rv != nil && core.UsesObj(info, kv.Value, rv)) {
+										stored = true
+									}
+								}
+							}
+							return true
+						})
+						sites = append(sites, site{hf, paramAt(hf, i), stored})
 					}
 				}
-				return true
-			})
-			c.Check("C18-R1", f.Key()+" generator stored in the sampler", c.Pos(call), stored, "")
+			}
 		}
+		nNew := 0
+		for _, st := range sites {
+			f, seed := st.f, st.seed
+			g := c.G(f)
+			news := g.FindCalls("math/rand/v2.New", "math/rand.New")
+			nNew += len(news)
+			for _, h := range news {
+				okEdge := false
+				for _, a := range g.AtomsAt(h.Loc) {
+					be, ok := ast.Unparen(a.Expr).(*ast.BinaryExpr)
+					if !ok {
+						continue
+					}
+					id, isID := ast.Unparen(be.X).(*ast.Ident) // the bare parameter: no conversion
+					v, isC := core.ConstInt(info, be.Y)
+					if isID && info.Uses[id] == seed && isC && v == -1 && ((be.Op == token.NEQ && a.Val) || (be.Op == token.EQL && !a.Val)) {
+						okEdge = true
+					}
+				}
+				// all facts at this point are about the seed sentinel only
+				nFacts := len(g.Facts(h.Loc))
+				c.Check("C18-R1", f.Key()+" generator built exactly when seed != -1", c.Pos(h.Node), okEdge && nFacts == 1, "the sentinel test must compare the unconverted seed parameter with -1 (a truncating conversion makes other seeds look like 'no seed')")
+				// derived from the seed
+				call := h.Node.(*ast.CallExpr)
+				fromSeed := closureMentions(g, call, func(n ast.Node) bool { id, ok := n.(*ast.Ident); return ok && info.Uses[id] == seed })
+				pcg := len(core.CallsTo(info, call, false, "math/rand/v2.NewPCG")) == 1
+				c.Check("C18-R1", f.Key()+" generator is a PCG of the seed", c.Pos(call), fromSeed && pcg, "rng must be rand.New(rand.NewPCG(f(seed), g(seed)))")
+				// stored in the returned sampler
+				rv := core.ResultVar(info, h.Top, call, 0)
+				stored := false
+				if f == f0 {
+					ast.Inspect(f.Body, func(n ast.Node) bool {
+						if kv, ok := n.(*ast.KeyValueExpr); ok {
+							if id, isID := kv.Key.(*ast.Ident); isID && info.Uses[id] == fRng && rv != nil && core.UsesObj(info, kv.Value, rv) {
+								stored = true
+							}
+						}
+						return true
+					})
+				} else if st.viaKey {
+					// the helper returns the generator, and nil on every other path
+					stored = true
+					seen := false
+					for _, ex := range g.Returns() {
+						if ex.Return == nil || len(ex.Return.Results) != 1 {
+							stored = false
+							continue
+						}
+						r := ast.Unparen(ex.Return.Results[0])
+						switch {
+						case r == ast.Expr(call), rv != nil && isIdentOf(info, r, rv):
+							seen = true
+						default:
+							if id, isID := r.(*ast.Ident); !isID || id.Name != "nil" {
+								stored = false
+							}
+						}
+					}
+					stored = stored && seen
+				}
+				c.Check("C18-R1", f.Key()+" generator stored in the sampler", c.Pos(call), stored, "")
+			}
+		}
+		c.Expect("C18-R1", "generator constructions in NewSampler", nNew, 1)
 	}
 
 	// ------------------------------------------------------------------ R2
-	c.Rule("C18-R2", "ids come from indices: the only stores to token.id are in Sampler.Sample, each `tokens[i].id = int32(i)` with i ranging over the logits, on a slice allocated in that call; every (re)initialisation of tokens[i].value from logits[i] sits in the same loop body as the id store (a reused, reordered scratch slice would pair values with stale ids); transforms move whole token values")
+	c.Rule("C18-R2", "ids come from indices: the only stores to token.id are in Sampler.Sample (or in a helper that only Sample calls, on Sample's logits), each `tokens[i].id = int32(i)` with i ranging over the logits, on a slice allocated in that call; every (re)initialisation of tokens[i].value from logits[i] sits in the same loop body as the id store (a reused, reordered scratch slice would pair values with stale ids); transforms move whole token values")
+	// the functions that may initialise tokens from the logits: Sample, and a helper that is called from
+	// Sample only and receives Sample's logits parameter (logitsOf gives the function's view of the logits,
+	// initCalls how many times Sample runs it)
+	logitsOf := map[*types.Func]types.Object{}
+	initCalls := map[*types.Func]int{}
+	if fS := c.P.LookupFunc("sample", "Sampler.Sample"); fS != nil {
+		logitsOf[fS.Obj], initCalls[fS.Obj] = paramAt(fS, 0), 1
+		for _, hf := range c.P.FuncsOf("sample") {
+			if hf.Obj == nil || hf.Obj == fS.Obj || strings.HasSuffix(c.Pos(hf.Body), "_test.go") {
+				continue
+			}
+			idx, calls, foreign := -1, 0, false
+			for _, caller := range c.P.FuncsOf("sample") {
+				if strings.HasSuffix(c.Pos(caller.Body), "_test.go") {
+					continue
+				}
+				for _, call := range core.Calls(caller.Body, true) {
+					if fo, _ := core.Callee(info, call).(*types.Func); fo == nil || fo != hf.Obj {
+						continue
+					}
+					if caller.Obj != fS.Obj {
+						foreign = true
+						continue
+					}
+					calls++
+					at := -1
+					for i, a := range call.Args {
+						if isIdentOf(info, a, paramAt(fS, 0)) {
+							at = i
+						}
+					}
+					if at < 0 || (idx >= 0 && idx != at) {
+						foreign = true
+					}
+					idx = at
+				}
+			}
+			if calls > 0 && !foreign && idx >= 0 {
+				logitsOf[hf.Obj], initCalls[hf.Obj] = paramAt(hf, idx), calls
+			}
+		}
+	}
 	nID := 0
 	for _, fn := range c.P.FuncsOf("sample") {
 		if strings.HasPrefix(fn.Name, "Grammar.") {
@@ -158,14 +268,14 @@ func runC18(c *Ctx) {
 			}
 			return false
 		}) {
-			nID++
+			nID += max(initCalls[fn.Obj], 1)
 			a := h.Node.(*ast.AssignStmt)
-			ok := fn.Name == "Sampler.Sample" && len(a.Rhs) == 1
+			ok := logitsOf[fn.Obj] != nil && len(a.Rhs) == 1
 			if ok {
 				// rhs int32(i) where i is the key of a range over logits, lhs tokens[i].id
 				okI := false
 				for _, rl := range rangeLoops(fn) {
-					if within(rl.Stmt, a) && rl.Over == paramAt(fn, 0) {
+					if within(rl.Stmt, a) && rl.Over == logitsOf[fn.Obj] {
 						if kid, isK := rl.Stmt.Key.(*ast.Ident); isK {
 							conv, isConv := ast.Unparen(a.Rhs[0]).(*ast.CallExpr)
 							if isConv && len(conv.Args) == 1 && core.UsesObj(info, conv.Args[0], info.Defs[kid]) {
@@ -180,23 +290,26 @@ func runC18(c *Ctx) {
 				}
 				ok = okI
 			}
-			c.Check("C18-R2", fn.Key()+" store:token.id = index", c.Pos(a), ok, "a token id may only be written in Sample as int32(i) for the index i of the logits loop")
+			c.Check("C18-R2", fn.Key()+" store:token.id = index", c.Pos(a), ok, "a token id may only be written in Sample (or a helper only Sample calls, on Sample's logits) as int32(i) for the index i of the logits loop")
 		}
 	}
 	c.Expect("C18-R2", "stores to token.id", nID, 2)
-	if f := c.Fn("C18-R2", "sample", "Sampler.Sample"); f != nil {
+	nV := 0
+	for _, f := range c.P.FuncsOf("sample") {
+		if logitsOf[f.Obj] == nil {
+			continue
+		}
 		g := c.G(f)
 		// value initialisations from logits
-		nV := 0
 		for _, h := range g.Find(func(n ast.Node) bool {
 			a, ok := n.(*ast.AssignStmt)
 			if !ok || len(a.Lhs) != 1 || core.LastField(info, a.Lhs[0]) != fVal {
 				return false
 			}
 			ix, isIx := ast.Unparen(a.Rhs[0]).(*ast.IndexExpr)
-			return isIx && core.UsesObj(info, ix.X, paramAt(f, 0))
+			return isIx && core.UsesObj(info, ix.X, logitsOf[f.Obj])
 		}) {
-			nV++
+			nV += initCalls[f.Obj]
 			pair := false
 			for _, n := range g.Nodes(h.Loc.B) {
 				if a, ok := n.(*ast.AssignStmt); ok && len(a.Lhs) == 1 && core.LastField(info, a.Lhs[0]) == fID {
@@ -205,7 +318,10 @@ func runC18(c *Ctx) {
 			}
 			c.Check("C18-R2", f.Key()+" value and id initialised together", c.Pos(h.Node), pair, "tokens[i].value = logits[i] without tokens[i].id = int32(i) in the same loop body: after a transform reordered the slice the value is paired with a stale id")
 		}
-		c.Expect("C18-R2", "value initialisations from logits", nV, 2)
+	}
+	c.Expect("C18-R2", "value initialisations from logits", nV, 2)
+	if f := c.Fn("C18-R2", "sample", "Sampler.Sample"); f != nil {
+		g := c.G(f)
 		// tokens is a fresh slice of this call
 		fresh := false
 		ast.Inspect(f.Body, func(n ast.Node) bool {
